@@ -28,7 +28,7 @@ fn cfail(class: &str, f: &F, message: String) -> Failure {
 }
 
 /// Inject one invalidity at the position selected by `pos` (if such a position exists).
-fn inject(f: &F, kind: u8, pos: u16) -> Option<F> {
+pub fn inject(f: &F, kind: u8, pos: u16) -> Option<F> {
     // count candidate positions, then rebuild with the chosen one changed
     fn walk(f: &F, kind: u8, target: &mut i64, scope: &mut Vec<String>) -> F {
         let hit = |target: &mut i64| {
